@@ -639,8 +639,8 @@ type modSet struct {
 
 func (x *Unit) loopSpec(s ast.Stmt) (*LoopSpec, int) {
 	ord := x.loopOrd[s]
-	if x.inlineDepth > 0 {
-		return nil, ord
+	if len(x.inlineStack) > 0 {
+		return nil, ord // loop of an inlined callee without contract: no invariants (its effects are havocked)
 	}
 	if x.FU.Contract != nil {
 		id := fmt.Sprint(ord)
